@@ -29,7 +29,8 @@ func (c18Check) Describe() CheckInfo {
 	return CheckInfo{
 		Level: "model_checking",
 		Rule: "explicit-state BFS over the real dispatcher with 3 recorded connections + embedded publisher (reference subscription table, per-transition conformance) and stateless preemption-bounded DFS over the schedules of publisher threads vs the channel and per-message delivery goroutines " +
-			"(the cooperative scheduler owns the buffered message queue, the subscriber RW-mutex and every spawned goroutine). Non-trivial = distinct (state, action) resp. distinct outcome.",
+			"(the cooperative scheduler owns the buffered message queue, the subscriber RW-mutex and every spawned goroutine); the same BFS from roots where a channel/pattern has delivered and lost its subscriber; " +
+			"every sequence of embedded-API Subscribe/PSubscribe/Unsubscribe/PUnsubscribe forms on one tag, a wire subscriber and a publisher (the API's pipe is the shim's buffered duplex) against the same table; a subscriber that stops reading. Non-trivial = distinct (state, action) resp. distinct outcome.",
 		Assumptions: []string{"a connection subscribed both by name and by a matching pattern receives ONE frame per publish (statement: 'exactly once to each connection')", "frame layout beyond 'last element is the message' is not compared"},
 	}
 }
